@@ -5,7 +5,7 @@ with / passes without), run the given checks (default: the PID's) with VERIF_REP
 import glob, os, subprocess, sys, json
 pid, d = sys.argv[1], sys.argv[2]
 checks = sys.argv[3:] or [pid]
-WT = "/tmp/evalwt"
+WT = "/tmp/evalwt-" + pid
 subprocess.run("git -C /repo worktree remove --force %s 2>/dev/null; git -C /repo worktree add -q --detach %s HEAD" % (WT, WT), shell=True, check=True)
 env = dict(os.environ, PYTHONPATH=WT)
 out = []
